@@ -62,6 +62,21 @@ def desugar(loc, relfile, fn_paths, rules, _pass=0, optional=()):
                     rewrites.append((a, b, new))
                     records.append({"fn": fp, "rule": "D28 X.collect::<Vec<_>>() [X the iterator parameter]  =>  X",
                                     "original": src[a:b], "rewritten": new})
+            if "D51" in rules:
+                # premises handed on as a chained iterator: the elements of X followed by E (stub value with that meaning)
+                for m in re.finditer(r"\b([a-z_][a-z_0-9]*)\.iter\(\)\.copied\(\)\.chain\(std::iter::once\(([^()]*)\)\)", src[it["start"]:it["end"]]):
+                    a, b = it["start"] + m.start(), it["start"] + m.end()
+                    new = f"pv_chain_once(&{m.group(1)}, {m.group(2)})"
+                    rewrites.append((a, b, new))
+                    records.append({"fn": fp, "rule": "D51 X.iter().copied().chain(std::iter::once(E))  =>  pv_chain_once(&X, E)   (stub value: the elements of X in order, then E)",
+                                    "original": src[a:b], "rewritten": new})
+            if "D52" in rules:
+                for m in re.finditer(r"\b([a-z_][a-z_0-9]*)\.iter\(\)\.copied\(\)\.collect\(\)", src[it["start"]:it["end"]]):
+                    a, b = it["start"] + m.start(), it["start"] + m.end()
+                    new = f"pv_collect_copied(&{m.group(1)})"
+                    rewrites.append((a, b, new))
+                    records.append({"fn": fp, "rule": "D52 X.iter().copied().collect()  =>  pv_collect_copied(&X)   (stub: a collection with the elements of X in order; the target type is the declared one)",
+                                    "original": src[a:b], "rewritten": new})
             if "D42" in rules:
                 # in-place sort / dedup of a vector of integers: stubs with the documented effect (spec/std_sort_dedup.rs)
                 for m in re.finditer(r"\b([a-z_][a-z_0-9]*)\.(sort|dedup)\(\);", src[it["start"]:it["end"]]):
